@@ -40,6 +40,16 @@ def alive_vars(c, truth, obv, inplace=False):
     """variables validated on this edge.  inplace=True: only tests that show the object is still in an
     environment (an alive object may have been moved: its next_inv then belongs to another inventory)"""
     out = []
+    # `X && (X->flags & O_DESTRUCTED)` is false: X is NULL or alive - either way nothing destructed is reached through it
+    c0, t0 = normalize_cond(c, truth)
+    c0 = strip(c0)
+    if not inplace and not t0 and c0.get("k") == "Bin" and c0.get("op") == "&&":
+        l0, r0 = strip(c0["L"]), strip(c0["R"])
+        if l0.get("k") == "Bin" and l0.get("op") == "!=" and const_val(l0["R"]) == 0:
+            l0 = strip(l0["L"])
+        if l0.get("k") == "Ref" and l0.get("id") in obv and r0.get("k") == "Bin" and r0.get("op") == "&" and "O_DESTRUCTED" in (show(r0) + str(r0)) \
+                and any(y.get("k") == "Mem" and y.get("f") == "flags" and strip(y["b"]).get("id") == l0.get("id") for y in walk(r0)):
+            out.append(l0.get("id"))
     for a, t in implied_atoms(c, truth):
         e, tt = normalize_cond(a, t)
         e = strip(e)
@@ -73,7 +83,7 @@ def ob_flag_alive(c, truth):
     return False
 
 
-def check(run, prog, cg, eff, RULE="C08-h", scope=("src/simulate.c", "src/backend.c", "src/comm.c", "src/command.c", "lib/lpc/object.c", "lib/efuns/")):
+def check(run, prog, cg, eff, RULE="C08-h", scope=("src/simulate.c", "src/backend.c", "src/comm.c", "src/command.c", "lib/lpc/", "lib/efuns/")):
     # anchor: safe_apply() refuses destructed targets by itself (that is why it is not in the family above)
     sa = prog.func("safe_apply")
     run.need(sa is not None, "safe_apply")
@@ -279,6 +289,38 @@ def check_loaded(run, prog, RULE="C08-k"):
             n_ += 1
             run.saw(f)
             tested = False
+            # a slot of the value stack itself: destruct_object() turns every T_OBJECT slot that holds the object into 0
+            # (remove_object_from_stack()), so an argument that still says T_OBJECT when the efun reads it is alive.
+            # What happens to the pointer after that - held across a callback - is C08-h's part.
+            base = src
+            while base.get("k") in ("Mem", "Sub", "Un", "Cast") and isinstance(base.get("b") or base.get("e"), dict):
+                base = strip(base.get("b") or base.get("e"))
+            if base.get("k") == "Bin" and base.get("op") in ("+", "-"):
+                base = strip(base["L"])
+            stack_slot = base.get("k") == "Ref" and base.get("n") == "sp" and base.get("d") in ("global", "static")
+            if not stack_slot and base.get("k") == "Ref" and base.get("d") in ("local", "param") and base.get("id") is not None:
+                bdefs = [n2["R"] for b2, i2, n2 in f.nodes() if n2.get("k") == "Asg" and n2.get("op") == "=" and strip(n2["L"]).get("k") == "Ref" and strip(n2["L"]).get("id") == base["id"]]
+                bdefs += [v["init"] for b2, i2, n2 in f.nodes() if n2.get("k") == "Decl" for v in n2.get("vars", ()) if v.get("id") == base["id"] and isinstance(v.get("init"), dict)]
+                stack_slot = bool(bdefs) and all(any(y.get("k") == "Ref" and y.get("n") == "sp" and y.get("d") in ("global", "static") for y in walk(d)) for d in bdefs)
+            if not stack_slot and base.get("k") == "Ref" and base.get("d") == "param":
+                # a parameter that every caller fills with a position of the value stack (map_string (sp - n + 1, n))
+                pi = [p_.get("pi") for p_ in f.params or [] if p_.get("id") == base.get("id")]
+                csites = [(g, n2) for g in prog.functions() for b2, i2, n2 in g.calls(f.name)]
+
+                def on_stack(g, e):
+                    for y in walk(e):
+                        if y.get("k") == "Ref" and y.get("n") == "sp" and y.get("d") in ("global", "static"):
+                            return True
+                        if y.get("k") == "Ref" and y.get("d") == "local" and y.get("id") is not None:
+                            ds = [n3["R"] for b3, i3, n3 in g.nodes() if n3.get("k") == "Asg" and n3.get("op") == "=" and strip(n3["L"]).get("id") == y["id"]]
+                            ds += [v["init"] for b3, i3, n3 in g.nodes() if n3.get("k") == "Decl" for v in n3.get("vars", ()) if v.get("id") == y["id"] and isinstance(v.get("init"), dict)]
+                            if ds and all(any(z.get("k") == "Ref" and z.get("n") == "sp" and z.get("d") in ("global", "static") for z in walk(d)) for d in ds):
+                                return True
+                    return False
+                stack_slot = bool(pi) and bool(csites) and all(len(n2.get("args", [])) > pi[0] and on_stack(g, n2["args"][pi[0]]) for g, n2 in csites)
+            if stack_slot:
+                run.ob(RULE, "loaded:%s:%s:%d" % (rel(f.file), f.name, j), True, "%s(.., %s ..) at line %s: `%s` is a slot of the value stack, which destruct_object() clears (C08-h follows the pointer from there)" % (n["fn"], show(a)[:24], n.get("l"), show(src)[:40]), f.file, n.get("l"), f.name)
+                continue
             for c, t, B in cfgq.guards(f, b.id):
                 if a.get("k") == "Ref" and a.get("id") in [x for x in alive_vars(c, t, obv) if not isinstance(x, tuple)]:
                     tested = True
